@@ -16,7 +16,8 @@ signature and the duplicate-verdict rule BEFORE recording the head and the verdi
 * A revision is stored under its own id (`Revision.id` always equals the map key in the Rust), so the
   field is not duplicated; `timeline` (bookkeeping of `revisions()`) and descriptions are dropped.
 * `assert_eq!`, `expect` on the modelled path are the `panic` outcome; `debug_assert!`s are not modelled
-  (release build): a second `Revision` action in one op overwrites the op's own first revision.
+  (release build). A second `Revision` action in one op is an error (fix a66814b; it used to overwrite the
+  op's own first revision).
 -/
 namespace HeartwoodModel.Identity
 open HeartwoodModel.Cob
@@ -179,6 +180,9 @@ def actRedact (s : Identity) (author : Key) (id : Id) : Except AErr Identity :=
 /-- `Revision` arm. -/
 def actRevision (V : Key → Sig → Blob → Bool) (s : Identity) (cur : Revision) (entry : Id) (author : Key)
     (title : Nat) (doc : Option IdDoc) (parent : Option Id) (sig : Sig) : Except AErr Identity :=
+  -- an op can create at most one revision (`self.revisions.contains_key(&entry)` ⇒ error)
+  if (get? entry s.revisions).isSome then .error .init
+  else
   match doc with
   | none => .error .git
   | some doc =>
